@@ -33,11 +33,18 @@ Theorem C14_class_table_wf : forall c s q m, wf_ct (gen_classes c s q m).
 Proof. exact gen_classes_wf. Qed.
 Print Assumptions C14_class_table_wf.
 (* the generated serialize expression (one call per occurrence, lists item by item, None guards on
-   nullable positions) computes the specified element-wise serialisation for every value without a
-   None at a non-null item position *)
-Theorem C14_serialize_elementwise : forall t top v, nn_ok top t v = true -> ser_t top t v = ser_spec t v.
-Proof. exact ser_t_spec. Qed.
-Print Assumptions C14_serialize_elementwise.
+   nullable positions) computes the specified element-wise serialisation EXACTLY on the values of the
+   argument's type (nn_ok: arrays at list positions, no None at a non-null item position); on every
+   other value it raises (None) or serialises a None — so the precondition g_conform of
+   C14_doc_valid is not wider than necessary *)
+Theorem C14_serialize_exact : forall t top v,
+  ser_t top t v = Some (ser_spec t v) <-> nn_ok top t v = true.
+Proof.
+  intros. split.
+  - intro H. destruct (nn_ok top t v) eqn:E; [reflexivity|]. exfalso. exact (ser_t_tight _ _ _ E H).
+  - apply ser_t_spec.
+Qed.
+Print Assumptions C14_serialize_exact.
 (* none_omitted + values_bound + type_exact for one classmethod call: the variables put on the
    object are the ideal ones (exact type, caller's value serialised element-wise, None omitted) *)
 Theorem C14_call_exact : forall c l args, args_conform (map (arg_meta c) l) args = true ->
@@ -82,6 +89,28 @@ Theorem C14_doc_valid : forall c s q m fuel f2 hist st es st' rq idl,
   keys (r_values rq) = keys (r_vardefs rq).
 Proof. intros. eapply doc_valid; eauto. apply gen_classes_wf. Qed.
 Print Assumptions C14_doc_valid.
+
+(* NO EXCEPTION + the composed statement, unconditional in the builder's result: if the expression
+   denotes a request at all (its ideal exists within depth f), then after any history free of shared
+   mutations the operation BUILDS with recursion depth f+1, leaves the shared objects untouched, and
+   its request is the ideal one *)
+Theorem C14_doc_valid_total : forall c s q m f hist st es idl,
+  let ct := gen_classes c s q m in
+  Forall (fun es => forallb g_shared es = true) hist -> forallb g_shared es = true ->
+  forallb (g_conform ct) es = true ->
+  run_hist ct (S f) (store0 ct) hist = Some st ->
+  ideal_sels ct f es = Some idl ->
+  exists rq, run_op ct (S f) st es = Some (st, rq) /\
+    resolves (look_req rq) (r_sels rq) = Some idl /\
+    NoDup (keys (r_vardefs rq)) /\
+    keys (r_vardefs rq) = flat_map sel_vars (r_sels rq) /\
+    keys (r_values rq) = keys (r_vardefs rq).
+Proof.
+  intros c s q m f hist st es idl ct Hh Hg Hc Hr Hi.
+  rewrite (safe_history_keeps_store _ _ _ _ Hh Hr).
+  apply doc_valid_total; auto. apply gen_classes_wf.
+Qed.
+Print Assumptions C14_doc_valid_total.
 
 (* history freedom: after ANY history free of shared mutations every operation — guarded or not —
    yields the request it yields right after import *)
@@ -139,7 +168,8 @@ Example C14_serialize_list_regression :
   faithful_on Demo.ct 64 [] [Demo.e_serlist] = Some true /\
   g_conform Demo.ct Demo.e_serlist = true /\
   (* the unguarded non-null item position: where the precondition fails the code calls serialize(None) *)
-  ser_t true (TList (TNonNull (TNamed "Instant"))) (JArr [JNull]) = JArr [ser JNull] /\
+  ser_t true (TList (TNonNull (TNamed "Instant"))) (JArr [JNull]) = Some (JArr [ser JNull]) /\
+  ser_t true (TList (TNamed "Instant")) (JStr "not a list") = None /\
   ser_spec (TList (TNonNull (TNamed "Instant"))) (JArr [JNull]) = JArr [JNull].
 Proof. vm_compute. repeat split. Qed.
 (* the hypotheses of C14_doc_valid are met by a two-field operation with aliases, a serialised
